@@ -658,24 +658,6 @@ val simple_member_target : node -> bool
 
 val k_compound_member_target : node -> bool
 
-val optchain_view : node -> (bool * node) option
-
-val is_optional_link : node -> bool
-
-val has_optional : node -> bool
-
-val is_oc_target : char list list -> node -> bool
-
-val spine_target : char list list -> node -> bool
-
-val spine_off : char list list -> bool -> node -> bool
-
-val strictly_inside : (node -> bool) -> node -> bool
-
-val oc_defect : char list list -> node -> bool
-
-val k_optchain_offspine : char list list -> node -> bool
-
 val known_classes : char list list -> node -> char list list
 
 val is_directive : node -> bool
